@@ -13,7 +13,9 @@ CurveSet == Curves(ClampedDirs(CurveP, KQ, 2), {2}, BOOLEAN, Seed)
 SD == ClampedDirs({1, 2}, <<R(1,4), R(3,4)>>, 1)
 SurfSet == {s \in Surfaces(SD, SD, {3}, BOOLEAN, Seed) : s.size[1] # s.size[2]}
 VolSet == {s \in Volumes(ClampedDirs({1, 2}, <<Half>>, 1), ClampedDirs({1, 2}, <<Half>>, 1), ClampedDirs({1}, <<Half>>, 1), {TRUE}, Seed) : DiffSizes(s)}
-Init == sh \in CurveSet \cup SurfSet \cup VolSet /\ out = [op |-> "init"]
+\* surfaces with the same knot vector in both directions (a caller may assign one list to both)
+SquareSet == {s \in Surfaces(ClampedDirs({2}, <<R(1,4), R(3,4)>>, 1), ClampedDirs({2}, <<R(1,4), R(3,4)>>, 1), {3}, BOOLEAN, Seed) : s.kv[1] = s.kv[2]}
+Init == sh \in CurveSet \cup SurfSet \cup VolSet \cup SquareSet /\ out = [op |-> "init"]
 AffineShape(s, ab) == [s EXCEPT !.kv = [d \in 1..PDim(s) |-> AffineKV(s.kv[d], ab[1], ab[2])]]
 AffinePrm(prm, ab) == [d \in 1..Len(prm) |-> RAdd(RMul(ab[1], prm[d]), ab[2])]
 MaxOrd == IF sh.rat THEN 0 ELSE 2
@@ -26,12 +28,29 @@ Query(prm) ==
              images |-> [x \in 1..3 |-> LET ab == (CHOOSE q \in [1..3 -> AffineMaps] : q[1] = <<RI(3), RI(0)>> /\ q[2] = <<RI(2), RI(-1)>> /\ q[3] = <<R(1,2), RI(1)>>)[x] IN
                           [a |-> ab[1], b |-> ab[2], shape |-> AffineShape(sh, ab), prm |-> AffinePrm(prm, ab)]]]
   /\ UNCHANGED sh
-Next == \E prm \in ShapeParams(sh, 1) : Query(prm)
+Maps3 == <<<<RI(3), RI(0)>>, <<RI(2), RI(-1)>>, <<R(1,2), RI(1)>>>>
+\* a knot is inserted r times in direction d and removed again: under every knot range the object is back at its definition,
+\* the other directions never change
+RoundTrip(d, u, r) ==
+  /\ out.op = "init" /\ PDim(sh) = 2 /\ d <= 2 /\ r <= sh.deg[d] - Mult(u, sh.kv[d])
+  /\ out' = [op |-> "roundtrip", d |-> d, u |-> u, r |-> r, mid |-> InsertDir(sh, d, u, r),
+             \* refined in both directions (the knot vectors of a square surface are equal again), then removed from direction d only
+             both |-> InsertDir(InsertDir(sh, 1, u, r), 2, u, r), oneleft |-> InsertDir(sh, 3 - d, u, r),
+             images |-> [x \in 1..3 |-> [a |-> Maps3[x][1], b |-> Maps3[x][2], shape |-> AffineShape(sh, Maps3[x]),
+                                         mid |-> AffineShape(InsertDir(sh, d, u, r), Maps3[x]),
+                                         both |-> AffineShape(InsertDir(InsertDir(sh, 1, u, r), 2, u, r), Maps3[x]),
+                                         oneleft |-> AffineShape(InsertDir(sh, 3 - d, u, r), Maps3[x]),
+                                         u |-> RAdd(RMul(Maps3[x][1], u), Maps3[x][2])]]]
+  /\ UNCHANGED sh
+Next == \/ \E prm \in ShapeParams(sh, 1) : Query(prm)
+        \/ \E d \in 1..2 : \E r \in 1..2 : RoundTrip(d, Half, r)
 Spec == Init /\ [][Next]_vars
 \* affine invariance of the definition: N_{aU+b}(a u + b) = N_U(u); derivatives scale by a^(-k)
 T_Affine == out.op = "query" => \A x \in 1..3 :
    LET im == out.images[x] IN
    /\ Point(im.shape, im.prm) = out.pt
    /\ PDim(sh) = 1 /\ ~sh.rat => \A k \in 1..(MaxOrd + 1) : Deriv(im.shape, im.prm, <<k - 1>>) = VScale(RInv(RPow(im.a, k - 1)), out.ders[k])
+T_RoundTrip == out.op = "roundtrip" => /\ RemoveDirForced(out.mid, out.d, out.u, out.r) = sh /\ SameH(sh, out.mid)
+                                       /\ RemoveDirForced(out.both, out.d, out.u, out.r) = out.oneleft
 EmitC == out.op # "init" => PrintT("CASE " \o ToJson([sh |-> sh, out |-> out]))
 =============================================================================
